@@ -1,0 +1,23 @@
+//go:build verif
+
+package apk
+
+import "archive/tar"
+
+// Wrappers for the verification harness of property C16 (build tag verif
+// only). They add no behaviour.
+
+// VerifSortTarHeaders exposes sortTarHeaders.
+func VerifSortTarHeaders(headers []tar.Header) []tar.Header { return sortTarHeaders(headers) }
+
+// VerifSplitRepeatedField exposes splitRepeatedField.
+func VerifSplitRepeatedField(val string) []string { return splitRepeatedField(val) }
+
+// VerifParseInstalledPerms exposes parseInstalledPerms.
+func VerifParseInstalledPerms(s string) (uid, gid int, perms int64, err error) {
+	return parseInstalledPerms(s)
+}
+
+// VerifPaxRecordsChecksumKey is the PAX record key under which the per-file
+// checksum travels.
+const VerifPaxRecordsChecksumKey = paxRecordsChecksumKey
